@@ -69,7 +69,7 @@ pub fn run(args: &Args) -> Report {
       r
     }
     "C06" => {
-      let mut r = wf::run_classes("C06", t, s, &[CP { name: "td-inj-ov", n: 4000 * scale }, CP { name: "mixed-inj-ov", n: 3000 * scale }, CP { name: "td-inj-any", n: 1000 * scale }, CP { name: "mixed-mixed", n: 2000 * scale }], replay);
+      let mut r = wf::run_classes("C06", t, s, &[CP { name: "td-inj-ov", n: 4000 * scale }, CP { name: "mixed-inj-ov", n: 3000 * scale }, CP { name: "td-inj-any", n: 1000 * scale }, CP { name: "mixed-any", n: 3000 * scale }, CP { name: "pure-any", n: 2000 * scale }], replay);
       r.rule = format!("{}Classes: a second writer of a generated resource is injected (usually value-conditional) into a well-formed program; plus well-formed programs whose writers are re-executed top-down, bottom-up and through nested requires (must never be reported as overlap). Monitors: a write function entered or a written_to returned while the shadow holds a write of the resource by another task; an overlapping-write abort after the write function already ran; at most one writer per resource in the store after a returning build; Ref-based: overlap found from scratch but a value returned. non-trivial = a distinct case with a session aborted with an overlapping-write diagnosis.", CLASS_DOC);
       r.floor("overlapping-write aborts observed", r.get("aborts_overlapping-write") > 50);
       r
